@@ -51,6 +51,8 @@ val nth : nat -> 'a1 list -> 'a1 -> 'a1
 
 val nth_error : 'a1 list -> nat -> 'a1 option
 
+val removelast : 'a1 list -> 'a1 list
+
 val rev : 'a1 list -> 'a1 list
 
 val concat : 'a1 list list -> 'a1 list
@@ -126,7 +128,11 @@ module N :
 
   val compare : n -> n -> comparison
 
+  val leb : n -> n -> bool
+
   val ltb : n -> n -> bool
+
+  val of_nat : nat -> n
  end
 
 module Z :
@@ -171,7 +177,19 @@ module Z :
 type ascii =
 | Ascii of bool * bool * bool * bool * bool * bool * bool * bool
 
+val zero : ascii
+
+val one : ascii
+
+val shift : bool -> ascii -> ascii
+
 val eqb0 : ascii -> ascii -> bool
+
+val ascii_of_pos : positive -> ascii
+
+val ascii_of_N : n -> ascii
+
+val ascii_of_nat : nat -> ascii
 
 val n_of_digits : bool list -> n
 
@@ -784,3 +802,119 @@ val dedup_names : name list -> name list
 val fixed_codes : (name * z) list -> z list
 
 val valid_codes : (name * z) list -> (name * z) list -> bool
+
+type lkind =
+| LxError
+| LxIdentifier
+| LxNumber
+| LxSection
+| LxCodeQuote
+| LxActionQuote
+| LxEOF
+| LxType
+| LxToken
+| LxUnion
+| LxLeft
+| LxRight
+| LxNone
+| LxPrec
+| LxPrecedence
+| LxStart
+| LxActionSelf
+| LxActionN
+| LxActionAccept
+| LxActionEnd
+| LxOr
+| LxDefine
+| LxEnd
+| LxLAngle
+| LxRAngle
+| LxChar
+| LxString
+| LxFuel
+
+type tok0 = { t_kind : lkind; t_value : ascii list; t_rest : ascii list }
+
+type tail =
+| Closed
+| ErrorForEver
+
+val code : ascii -> n
+
+val is_upper : ascii -> bool
+
+val is_lower : ascii -> bool
+
+val is_letter : ascii -> bool
+
+val is_digit : ascii -> bool
+
+val is_idch : ascii -> bool
+
+val nl : ascii
+
+val tabc : ascii
+
+val quote : ascii
+
+val dquote : ascii
+
+val bslash : ascii
+
+val is_ws : ascii -> bool
+
+val strip : ascii list -> ascii list -> ascii list option
+
+val has_prefix : ascii list -> ascii list -> bool
+
+val skip_spaces : ascii list -> ascii list
+
+val take_while : (ascii -> bool) -> ascii list -> ascii list * ascii list
+
+val accept_alpha_word : ascii list -> ascii list -> ascii list option
+
+val accept_word : ascii list -> ascii list -> ascii list option
+
+val after_line : ascii list -> ascii list
+
+val block_comment : bool -> ascii list -> ascii list option
+
+val braces : nat -> ascii list -> (ascii list * ascii list) option
+
+val code_end : ascii list -> (ascii list * ascii list) option
+
+val string_body : ascii list -> (ascii list * ascii list) option
+
+val w_type : ascii list
+
+val w_token : ascii list
+
+val w_union : ascii list
+
+val w_left : ascii list
+
+val w_right : ascii list
+
+val w_nonassoc : ascii list
+
+val w_prec : ascii list
+
+val w_precedence : ascii list
+
+val w_start : ascii list
+
+val w_accept : ascii list
+
+val w_end : ascii list
+
+val directive_word : ascii list -> (lkind * ascii list) option
+
+val skip_blank_tab : ascii list -> ascii list
+
+val union_body : ascii list -> (ascii list * ascii list) option
+
+val errtok : tok0
+
+val lex_root : nat -> ascii list -> ascii list -> tok0 list * tail
+
+val lex : ascii list -> tok0 list * tail
